@@ -266,6 +266,9 @@ def obligations(tier):
         for fmts, mutable in [(["C", "U"], True), (["U", "C"], False)]:
             obs.append(Ob("xf/box2x2/swizzle/%s%s" % ("".join(fmts), "m" if mutable else ""), "attrs",
                           dict(tree=None, box=[2, 2], xf="swizzleRanks", opt={"perm": perm}, depth=2, fmts=fmts, mutable=mutable, auth=True), names("v", 4), []))
+    for perm in ([2, 0, 1], [1, 2, 0], [0, 2, 1]):
+        obs.append(Ob("xf/box1x2x3/swizzle%s/CUC" % "".join(map(str, perm)), "attrs",
+                      dict(tree=None, box=[1, 2, 3], xf="swizzleRanks", opt={"perm": perm}, depth=3, fmts=["C", "U", "C"], mutable=True, auth=True), names("v", 6), []))
     tree = [[1]]
     ps = names("x", tree_params(tree))
     tp, _, cn = tree_pre(tree, ps)
